@@ -665,6 +665,13 @@ def cfg_soup_worker(item: T.Tuple[str, int, int, int]) -> dict:
             check_any_string(acc, s, 'near-miss')
             if k % 4000 == 0:
                 acc.samples.append(s)
+    elif what == 'edit1':    # (start, end, _) into the single-edit neighbourhood
+        strings = gen.single_edit_neighbourhood()
+        for idx in range(a, min(b, len(strings))):
+            check_any_string(acc, strings[idx], 'single-edit')
+            acc.count('cfg-distinct')
+            if idx % 3001 == 0:
+                acc.samples.append(strings[idx])
     elif what == 'wide':     # characters outside the alphabet: exception-type policy only
         rng = random.Random(f'{SEED}:wide:{a}')
         alphabet = list('ab_x(),="\' \t.-#\\/[]{}!&|0') + ['all', 'any', 'not', 'é', '​', '\x00', 'r"', "r#\""]
@@ -927,6 +934,7 @@ def main() -> int:
     mech_counts: T.Dict[str, int] = {}
 
     mech_sample: T.Dict[str, dict] = {}
+    section_samples: T.Dict[str, T.List[T.Any]] = {}
 
     def viol(mech: str, witness: dict) -> None:
         mech_counts[mech] = mech_counts.get(mech, 0) + 1
@@ -948,7 +956,9 @@ def main() -> int:
                     if mech in chk.known:
                         chk.known_hits[mech] = chk.known_hits.get(mech, 0) + extra
             for s in d['samples']:
-                chk.sample(s, limit=14)
+                sec = 'grid' if isinstance(s, dict) else 'cfg'
+                if len(section_samples.setdefault(sec, [])) < (4 if sec == 'grid' else 8):
+                    section_samples[sec].append(s)
             hashes |= d['hashes']
         return hashes
 
@@ -995,7 +1005,7 @@ def main() -> int:
     totals['evaluations'] += n * n + triples
     totals['distinct'] += n * (n - 1)
     chk.notes['order'] = {'versions': n, 'pairs': n * n, 'triples': triples}
-    chk.sample({'order_domain_head': ORDER[:6] + ORDER[26:34]}, limit=14)
+    section_samples['order'] = [{'order_domain_excerpt': ORDER[:6] + ORDER[26:34]}]
     t_order = time.time() - t0 - t_grid
 
     # ---- cfg -----------------------------------------------------------------------------
@@ -1012,8 +1022,9 @@ def main() -> int:
     items2 += [('r:2:3', i, per) for i in range(n_r23 // per)]
     items2 += [('r:3:3', i, per) for i in range(n_r3 // per)]
     if time.time() - t0 > budget * 0.7:
-        chk.notes['budget_cfg'] = 'sampled cfg expressions skipped: time budget (machine load); exhaustive parts kept'
-        items2 = [it for it in items2 if not it[0].startswith('r:')]
+        chk.notes['budget_cfg'] = 'sampled cfg expressions reduced to a third: time budget (machine load); enumerated parts kept'
+        sampled = [it for it in items2 if it[0].startswith('r:')]
+        items2 = [it for it in items2 if not it[0].startswith('r:')] + sampled[::3]
     chk.rng.shuffle(items2)
     res = common.pmap(cfg_depth_worker, items2, chk.jobs)
     hashes = merge(res)
@@ -1038,9 +1049,15 @@ def main() -> int:
     items3 += [('rand', i, 4000, 0) for i in range(n_rand // 4000)]
     items3 += [('near', i, 4000, 0) for i in range(n_near // 4000)]
     items3 += [('wide', i, 4000, 0) for i in range(n_wide // 4000)]
+    n_edit = len(gen.single_edit_neighbourhood())
+    items3 += [('edit1', i, min(i + 2500, n_edit), 0) for i in range(0, n_edit, 2500)]
     if time.time() - t0 > budget:
-        chk.notes['budget'] = 'soup section shortened: time budget exhausted'
-        items3 = [it for it in items3 if it[0] in ('delim', 'exh')]
+        chk.notes['budget'] = 'random soups / near-misses / wide alphabet reduced to a quarter: time budget exhausted (machine load); enumerated classes kept'
+        keep: T.List[T.Any] = []
+        for kind3 in ('rand', 'near', 'wide'):
+            sel = [it for it in items3 if it[0] == kind3]
+            keep += sel[:max(1, len(sel) // 4)]
+        items3 = [it for it in items3 if it[0] in ('delim', 'exh', 'edit1')] + keep
     chk.rng.shuffle(items3)
     res = common.pmap(cfg_soup_worker, items3, chk.jobs)
     hashes |= merge(res)
@@ -1059,6 +1076,7 @@ def main() -> int:
     totals['evaluations'] += chk.counters.get('monitor:directed-probes', 0)
 
     # ---- verdict ----------------------------------------------------------------------------
+    chk.samples = section_samples.get('grid', []) + section_samples.get('order', []) + section_samples.get('cfg', [])
     chk.evaluations = totals['evaluations']
     for name, minimum in (('monitor:grid-release-vs-cargo-matcher', 50000), ('monitor:prerelease-gate', 5000),
                           ('monitor:prerelease-both-readings-agree', 10000), ('monitor:prerelease-both-readings-accept', 500), ('monitor:order-pair-vs-semver11', 10000),
@@ -1101,7 +1119,7 @@ def main() -> int:
                'cfg_cells': cfg_cells,
                'exhaustive_parts': {'grid': thorough, 'order_pairs_and_triples': True, 'cfg_depth<=2_arity<=2': True,
                                     'cfg_depth<=1_arity<=3': True, 'cfg_depth3_unary': thorough,
-                                    f'token_soups_len<={max_len}': True}})
+                                    f'token_soups_len<={max_len}': True, 'single_token_edits_of_depth<=1_arity<=2': True}})
 
 
 if __name__ == '__main__':
